@@ -2,7 +2,11 @@ import SpecterModel.Util
 import SpecterModel.C24.Model
 import SpecterModel.C24.Gen
 /-! C24 line-protocol driver.
-`open <uv> <mask> <r0,r1,r2,r3> <jm> <foreign> => <ok|refuse> <uv'> <mask'> <r0',r1',r2',r3'> <rows> <schema> <bytes>`
+`open <uv> <mask> <r0,r1,r2,r3> <jm> <foreign> [<coll>] => <ok|refuse> <uv'> <mask'> <r0',r1',r2',r3'> <rows> <schema> <bytes>`
+* coll bit i (default 0) = a *foreign* object of the other kind occupies the name of object i: an index
+  called `key_trackers`/…/`lease_entries` on a foreign table, a table called `idx_hash`.  Such a file
+  has that v1 object absent (the opener's `tableExists`/`indexExists` say so too), but the migration
+  statement creating it fails, i.e. the migration script breaks off part-way.  coll and mask are disjoint;
 * mask bit i = object i of [key_trackers, simple_entries, prefix_entries, lease_entries, idx_hash] exists;
 * r_i = row count of table i; `rows` = `same` iff every table that existed still exists with identical
   content (incl. a foreign table when `foreign=1`); `schema` = `eq` | `sup` (old sqlite_schema rows all
@@ -24,9 +28,15 @@ def showCounts (l : List Nat) : String := ",".intercalate (l.map toString)
 def step (_ : Unit) (toks : List String) (rhs : String) : Unit × Verdict :=
   match toks with
   | ["reset"] => ((), .ok)
-  | ["open", uv, mask, rows, jm, _foreign] =>
-    match uv.toInt?, mask.toNat?, parseCounts rows, (rhs.splitOn " ").filter (· ≠ "") with
-    | some uv, some mask, some rows, [out, uv', mask', rows', rsame, schema, bytes] =>
+  | ["open", uv, mask, rows, jm, foreign] => openLine uv mask rows jm foreign "0" rhs
+  | ["open", uv, mask, rows, jm, foreign, coll] => openLine uv mask rows jm foreign coll rhs
+  | _ => ((), .bad "unknown op")
+where
+  openLine (uv mask rows jm _foreign coll rhs : String) : Unit × Verdict :=
+    match uv.toInt?, mask.toNat?, parseCounts rows, coll.toNat?, (rhs.splitOn " ").filter (· ≠ "") with
+    | some uv, some mask, some rows, some coll, [out, uv', mask', rows', rsame, schema, bytes] =>
+      if (List.range 5).any (fun i => bit mask i && bit coll i) || coll ≥ 32 then
+        ((), .bad "coll overlaps mask (one name cannot be a table and an index)") else
       match uv'.toInt?, mask'.toNat?, parseCounts rows' with
       | some uv', some mask', some rows' =>
         let cur := Gen.facts.schemaVersion
@@ -54,13 +64,12 @@ def step (_ : Unit) (toks : List String) (rhs : String) : Unit × Verdict :=
         match specErr with
         | some e => ((), .spec e)
         | none =>
-          let (o, db') := openDb Gen.facts (ofMask uv mask rows)
+          let (o, db') := openDb Gen.facts (ofMask uv mask rows coll)
           let mo := if o = .ok then "ok" else "refuse"
           let m := s!"{mo} {db'.uv} {maskOf db'} {showCounts (rowCounts db')}"
           if m ≠ s!"{out} {uv'} {mask'} {showCounts rows'}" then ((), .diff m) else ((), .ok)
       | _, _, _ => ((), .bad "open rhs numbers")
-    | _, _, _, _ => ((), .bad "open args")
-  | _ => ((), .bad "unknown op")
+    | _, _, _, _, _ => ((), .bad "open args")
 
 def main : IO Unit := runLoop () step
 
